@@ -255,7 +255,15 @@ theorem C06_code_facts :
 theorem C06_driver_code_facts :
     Gen.SyncFacts.newBlockSteps = ["AddBlockToTrack", "ProcessBlock"] ∧
     Gen.SyncFacts.trackCond = ["!b.IsFinalizedBlock"] ∧
-    Gen.SyncFacts.handleReorgSteps = ["cancel", "Reorg", "send:d.reorgSub.ReorgProcessed"] := by decide
+    Gen.SyncFacts.handleReorgSteps = ["cancel", "Reorg", "send:d.reorgSub.ReorgProcessed"] ∧
+    -- a block is reported as finalized (and then not tracked) only on the strength of a finalized pointer sampled BEFORE its
+    -- header was checked; and no store turns a failed rewind into a success (the driver acknowledges a reorg on nil)
+    Gen.SyncFacts.downloadLoopOrder.take 2 = ["GetLastFinalizedBlock", "GetEventsByBlockRange"] ∧
+    Gen.SyncFacts.errToNil_evmDriver = [] ∧
+    Gen.SyncFacts.errToNil_gerProcessor = ["GetLastProcessedBlock#2"] ∧
+    Gen.SyncFacts.errToNil_l1infoProcessor = ["getLastProcessedBlockWithTx#1"] ∧
+    Gen.SyncFacts.errToNil_bridgeProcessor = ["GetBridges#3", "GetBridgesPaged#5", "GetClaims#3", "GetClaimsPaged#5",
+      "GetLegacyTokenMigrations#4", "fetchTokenMappings#3", "getLastProcessedBlockWithTx#1"] := by decide
 
 /-! ### F5 — the statement at full strength (any interleaving of detector and drivers) is FALSE of the code -/
 
